@@ -1,1 +1,559 @@
-(* stub: to be written by group Rates *)
+(* Crash-safety of the CSV exchange-rate cache write (C14): the in-place
+   procedure (code before 1bcf18f) is refuted, the temp-file + sync + rename
+   procedure (code after) is proved safe; the reader is shown to read back
+   exactly what a complete write rendered. *)
+From Coq Require Import List NArith ZArith QArith Qcanon Bool Lia.
+From ACB Require Import Base.QcExtra Base.Fit Model.Rates Model.CrashFs Proofs.RatesProps.
+Import ListNotations.
+Local Open Scope Z_scope.
+
+(* ------------------------------------------------------------ file system *)
+Lemma exec_app p q s : exec (p ++ q) s = exec q (exec p s).
+Proof. unfold exec. apply fold_left_app. Qed.
+
+(* steps that leave the live file alone *)
+Definition tmp_only (st : step) : bool :=
+  match st with
+  | Create Tmp | Append Tmp _ | Flush | Sync Tmp => true
+  | _ => false
+  end.
+
+Lemma exec_step_tmp_only s st : tmp_only st = true -> fs_live (exec_step s st) = fs_live s.
+Proof.
+  destruct st as [[|] | [|] b | | [|] | a b]; cbn [tmp_only]; intros H; try discriminate; cbn [exec_step get_file].
+  - reflexivity.
+  - destruct (fs_tmp s); reflexivity.
+  - reflexivity.
+  - destruct (fs_tmp s); reflexivity.
+Qed.
+
+Lemma exec_tmp_only p : forall s, forallb tmp_only p = true -> fs_live (exec p s) = fs_live s.
+Proof.
+  induction p as [| st t IH]; intros s H; [reflexivity | ].
+  cbn [forallb] in H. apply andb_true_iff in H. destruct H as [H1 H2].
+  change (exec (st :: t) s) with (exec t (exec_step s st)).
+  rewrite IH by exact H2. apply exec_step_tmp_only. exact H1.
+Qed.
+
+Lemma forallb_firstn {A} (f : A -> bool) n l : forallb f l = true -> forallb f (firstn n l) = true.
+Proof.
+  revert l. induction n as [| k IH]; intros l H; [reflexivity | ].
+  destruct l as [| x t]; [reflexivity | ].
+  cbn [forallb firstn] in *. apply andb_true_iff in H. destruct H as [H1 H2].
+  rewrite H1, (IH t H2). reflexivity.
+Qed.
+
+Definition appends (f : fname) (rs : list row_t) : list step := map (fun r => Append f (render_row r)) rs.
+
+Lemma exec_appends_tmp : forall rs s d p,
+  fs_tmp s = Some {| f_durable := d; f_pending := p |} ->
+  fs_tmp (exec (appends Tmp rs) s) = Some {| f_durable := d; f_pending := p ++ render_rows rs |} /\
+  fs_live (exec (appends Tmp rs) s) = fs_live s.
+Proof.
+  induction rs as [| r t IH]; intros s d p H.
+  - cbn. rewrite app_nil_r. auto.
+  - change (exec (appends Tmp (r :: t)) s) with (exec (appends Tmp t) (exec_step s (Append Tmp (render_row r)))).
+    cbn [exec_step get_file]. rewrite H. cbn [set_file f_durable f_pending].
+    destruct (IH {| fs_live := fs_live s;
+                    fs_tmp := Some {| f_durable := d; f_pending := p ++ render_row r |} |}
+                 d (p ++ render_row r) eq_refl) as [H1 H2].
+    rewrite H1, H2. cbn [fs_live render_rows flat_map]. rewrite <- app_assoc. auto.
+Qed.
+
+Lemma appends_tmp_only rs : forallb tmp_only (appends Tmp rs) = true.
+Proof. induction rs as [| r t IH]; [reflexivity | exact IH]. Qed.
+
+(* the steps of rename_proc before the rename *)
+Definition rename_pre (rs : list row_t) : list step :=
+  Create Tmp :: appends Tmp rs ++ [Flush; Sync Tmp].
+
+Lemma rename_proc_split rs : rename_proc rs = rename_pre rs ++ [Rename Tmp Live].
+Proof.
+  unfold rename_proc, rename_pre, appends. cbn [app]. f_equal.
+  rewrite <- app_assoc. reflexivity.
+Qed.
+
+Lemma rename_pre_tmp_only rs : forallb tmp_only (rename_pre rs) = true.
+Proof.
+  unfold rename_pre. cbn [forallb tmp_only]. rewrite forallb_app, appends_tmp_only. reflexivity.
+Qed.
+
+Lemma rename_pre_exec rs s :
+  fs_tmp (exec (rename_pre rs) s) = Some {| f_durable := render_rows rs; f_pending := [] |}.
+Proof.
+  unfold rename_pre.
+  change (exec (Create Tmp :: appends Tmp rs ++ [Flush; Sync Tmp]) s)
+    with (exec (appends Tmp rs ++ [Flush; Sync Tmp]) (exec_step s (Create Tmp))).
+  rewrite exec_app.
+  destruct (exec_appends_tmp rs (exec_step s (Create Tmp)) [] [] eq_refl) as [H1 _].
+  set (s1 := exec (appends Tmp rs) (exec_step s (Create Tmp))) in *.
+  change (exec [Flush; Sync Tmp] s1) with (exec_step (exec_step s1 Flush) (Sync Tmp)).
+  cbn [exec_step get_file]. rewrite H1. cbn [set_file fs_tmp f_durable f_pending app].
+  reflexivity.
+Qed.
+
+Lemma firstn_app_last {A} n (l : list A) x :
+  firstn n (l ++ [x]) = firstn n l \/ firstn n (l ++ [x]) = l ++ [x].
+Proof.
+  destruct (Nat.le_gt_cases n (length l)) as [L | G].
+  - left. rewrite firstn_app. replace (n - length l)%nat with O by lia.
+    cbn [firstn]. apply app_nil_r.
+  - right. apply firstn_all2. rewrite app_length. cbn [length]. lia.
+Qed.
+
+(* atomicity: whatever the crash point, the live file is the complete old
+   content (or still absent) or the complete new content *)
+Lemma rename_atomic old tmp0 new live tmp :
+  post_crash (rename_proc new) (fs_of old tmp0) live tmp ->
+  live = option_map render_rows old \/ live = Some (render_rows new).
+Proof.
+  intros [n [Hl _]]. cbv zeta in Hl. rewrite rename_proc_split in Hl.
+  destruct (firstn_app_last n (rename_pre new) (Rename Tmp Live)) as [E | E]; rewrite E in Hl; clear E.
+  - left. rewrite exec_tmp_only in Hl by (apply forallb_firstn, rename_pre_tmp_only).
+    unfold fs_of in Hl. cbn [fs_live] in Hl.
+    destruct old as [rs |]; cbn [option_map] in *.
+    + destruct live as [b |]; [ | contradiction ]. destruct Hl as [k Hk].
+      cbn [durable_file f_durable f_pending] in Hk. rewrite firstn_nil, app_nil_r in Hk. congruence.
+    + destruct live; [contradiction | reflexivity].
+  - right. rewrite exec_app in Hl.
+    change (exec [Rename Tmp Live] (exec (rename_pre new) (fs_of old tmp0)))
+      with (exec_step (exec (rename_pre new) (fs_of old tmp0)) (Rename Tmp Live)) in Hl.
+    cbn [exec_step get_file] in Hl. rewrite rename_pre_exec in Hl.
+    cbn [set_file fs_live] in Hl.
+    destruct live as [b |]; [ | contradiction ]. destruct Hl as [k Hk].
+    cbn [f_durable f_pending] in Hk. rewrite firstn_nil, app_nil_r in Hk. congruence.
+Qed.
+
+(* ------------------------------------------------------------------ digits *)
+Lemma digit_facts k : 0 <= k <= 9 ->
+  is_digit (digit k) = true /\ dval (digit k) = k /\
+  digit k <> COMMA /\ digit k <> LF /\ digit k <> DOT /\ digit k <> DASH /\ digit k <> PLUS.
+Proof.
+  intros H.
+  assert (C : k = 0 \/ k = 1 \/ k = 2 \/ k = 3 \/ k = 4 \/ k = 5 \/ k = 6 \/ k = 7 \/ k = 8 \/ k = 9) by lia.
+  repeat (destruct C as [-> | C]); try subst k; vm_compute; repeat split; discriminate.
+Qed.
+
+Definition plain (bs : bytes) : Prop := Forall (fun b => is_digit b = true) bs.
+
+Lemma is_digit_not_sep b : is_digit b = true ->
+  b <> COMMA /\ b <> LF /\ b <> DOT /\ b <> DASH /\ b <> PLUS.
+Proof.
+  unfold is_digit, COMMA, LF, DOT, DASH, PLUS. intros H. apply andb_true_iff in H.
+  destruct H as [H1 H2]. apply N.leb_le in H1. apply N.leb_le in H2. repeat split; lia.
+Qed.
+
+Lemma num_acc_app a l1 l2 :
+  plain l1 -> num_acc a (l1 ++ l2) = match num_acc a l1 with Some v => num_acc v l2 | None => None end.
+Proof.
+  revert a. induction l1 as [| b t IH]; intros a H; cbn [app num_acc]; [reflexivity | ].
+  inversion H as [| ? ? Hb Ht]; subst. rewrite Hb. apply IH. exact Ht.
+Qed.
+
+Lemma num_acc_plain a l : plain l -> exists v, num_acc a l = Some v.
+Proof.
+  revert a. induction l as [| b t IH]; intros a H; cbn [num_acc]; [eauto | ].
+  inversion H as [| ? ? Hb Ht]; subst. rewrite Hb. apply IH. exact Ht.
+Qed.
+
+Lemma digits_fuel_spec : forall fuel n acc,
+  0 <= n < 2 ^ Z.of_nat fuel -> (0 < fuel)%nat -> plain acc ->
+  plain (digits_fuel fuel n acc) /\
+  (length acc < length (digits_fuel fuel n acc))%nat /\
+  forall a, num_acc a (digits_fuel fuel n acc)
+            = num_acc (a * 10 ^ Z.of_nat (length (digits_fuel fuel n acc) - length acc) + n) acc.
+Proof.
+  induction fuel as [| k IH]; intros n acc Hn Hf Hacc; [lia | ].
+  cbn [digits_fuel].
+    assert (Hm : 0 <= n mod 10 <= 9) by (pose proof (Z.mod_pos_bound n 10 ltac:(lia)); lia).
+    destruct (digit_facts _ Hm) as (Hd & Hv & _).
+    assert (Hacc' : plain (digit (n mod 10) :: acc)) by (constructor; assumption).
+    destruct (n / 10 =? 0) eqn:E.
+    + apply Z.eqb_eq in E. split; [exact Hacc' | ]. split; [cbn [length]; lia | ].
+      intros a. cbn [length num_acc]. rewrite Hd, Hv.
+      replace (S (length acc) - length acc)%nat with 1%nat by lia.
+      f_equal. pose proof (Z.div_mod n 10 ltac:(lia)). change (10 ^ Z.of_nat 1) with 10. lia.
+    + apply Z.eqb_neq in E.
+      assert (Hn' : 0 <= n / 10 < 2 ^ Z.of_nat k).
+      { split; [apply Z.div_pos; lia | ].
+        apply Z.div_lt_upper_bound; [lia | ].
+        rewrite Nat2Z.inj_succ, Z.pow_succ_r in Hn by lia. lia. }
+      assert (Hk : (0 < k)%nat).
+      { destruct k; [ | lia ]. cbn in Hn'. pose proof (Z.div_pos n 10). lia. }
+      destruct (IH (n / 10) (digit (n mod 10) :: acc) Hn' Hk Hacc') as (P & L & V).
+      split; [exact P | ]. cbn [length] in L. split; [lia | ].
+      intros a. rewrite V. cbn [length num_acc]. rewrite Hd, Hv.
+      set (len := length (digits_fuel k (n / 10) (digit (n mod 10) :: acc))) in *.
+      replace (len - length acc)%nat with (S (len - S (length acc)))%nat by lia.
+      f_equal. rewrite Nat2Z.inj_succ, Z.pow_succ_r by lia.
+      pose proof (Z.div_mod n 10 ltac:(lia)). lia.
+Qed.
+
+Lemma digits_of_spec n : 0 <= n ->
+  plain (digits_of n) /\ digits_of n <> [] /\ num_of (digits_of n) = Some n.
+Proof.
+  intros Hn. unfold digits_of, num_of.
+  assert (B : 0 <= n < 2 ^ Z.of_nat (S (Z.to_nat (Z.log2 n)))).
+  { split; [exact Hn | ]. rewrite Nat2Z.inj_succ, Z2Nat.id by apply Z.log2_nonneg.
+    destruct (Z.eq_dec n 0) as [-> | NZ]; [cbn; lia | ].
+    apply Z.log2_spec. lia. }
+  destruct (digits_fuel_spec _ n [] B ltac:(lia) (Forall_nil _)) as (P & L & V).
+  split; [exact P | ]. split.
+  - intros E. rewrite E in L. cbn in L. lia.
+  - rewrite V. cbn [num_acc]. f_equal; lia.
+Qed.
+
+Lemma plain_no_sep sep bs : plain bs -> is_digit sep = false -> ~ In sep bs.
+Proof.
+  intros P Hs Hin. unfold plain in P. rewrite Forall_forall in P.
+  specialize (P _ Hin). congruence.
+Qed.
+
+(* ------------------------------------------------------------- splitting *)
+Lemma split_first_no sep bs : ~ In sep bs -> split_first sep bs = (bs, None).
+Proof.
+  induction bs as [| b t IH]; intros H; cbn [split_first]; [reflexivity | ].
+  destruct (N.eqb_spec b sep) as [E | NE]; [exfalso; apply H; left; exact E | ].
+  rewrite IH by (intros X; apply H; right; exact X). reflexivity.
+Qed.
+
+Lemma split_first_app sep l1 l2 : ~ In sep l1 -> split_first sep (l1 ++ sep :: l2) = (l1, Some l2).
+Proof.
+  induction l1 as [| b t IH]; intros H; cbn [app split_first].
+  - rewrite N.eqb_refl. reflexivity.
+  - destruct (N.eqb_spec b sep) as [E | NE]; [exfalso; apply H; left; exact E | ].
+    rewrite IH by (intros X; apply H; right; exact X). reflexivity.
+Qed.
+
+Lemma split_on_nonnil sep bs : split_on sep bs <> [].
+Proof.
+  induction bs as [| b t IH]; cbn [split_on]; [discriminate | ].
+  destruct (split_on sep t) as [| cur rest]; [contradiction | ].
+  destruct (b =? sep)%N; discriminate.
+Qed.
+
+Lemma split_on_no sep bs : ~ In sep bs -> split_on sep bs = [bs].
+Proof.
+  induction bs as [| b t IH]; intros H; cbn [split_on]; [reflexivity | ].
+  rewrite IH by (intros X; apply H; right; exact X).
+  destruct (N.eqb_spec b sep) as [E | NE]; [exfalso; apply H; left; exact E | reflexivity].
+Qed.
+
+Lemma split_on_app sep l1 l2 : ~ In sep l1 -> split_on sep (l1 ++ sep :: l2) = l1 :: split_on sep l2.
+Proof.
+  induction l1 as [| b t IH]; intros H; cbn [app split_on].
+  - rewrite N.eqb_refl. pose proof (split_on_nonnil sep l2) as NN.
+    destruct (split_on sep l2) as [| cur rest]; [contradiction | reflexivity].
+  - rewrite IH by (intros X; apply H; right; exact X).
+    destruct (N.eqb_spec b sep) as [E | NE]; [exfalso; apply H; left; exact E | reflexivity].
+Qed.
+
+(* ------------------------------------------------------------------ dates *)
+Lemma is_leap_len y : year_len y = if is_leap y then 366 else 365.
+Proof.
+  unfold is_leap. pose proof (year_len_bounds y) as B.
+  destruct (year_len y =? 366) eqn:E; [apply Z.eqb_eq in E | apply Z.eqb_neq in E]; lia.
+Qed.
+
+Lemma civil_spec d :
+  let '(y, m, dd) := civil d in
+  y = year_of d /\ 1 <= m <= 12 /\ 1 <= dd <= 31 /\ day_of_civil y m dd = Some d.
+Proof.
+  unfold civil. set (y := year_of d). set (doy := d - jan1 y).
+  pose proof (year_of_spec d) as S. fold y in S.
+  pose proof (is_leap_len y) as L. unfold year_len in L.
+  assert (Hdoy : 0 <= doy < (if is_leap y then 366 else 365)) by (unfold doy; lia).
+  assert (Hd : d = jan1 y + doy) by (unfold doy; lia).
+  clearbody doy. clear S L. unfold day_of_civil.
+  destruct (is_leap y); unfold month_of_doy; cbn [cum_days];
+    repeat match goal with
+           | |- context [if ?a <? ?b then _ else _] => destruct (Z.ltb_spec a b)
+           end;
+    cbn [cum_days Z.add Pos.add Pos.succ Pos.add_carry];
+    (split; [reflexivity | ]); (split; [lia | ]); (split; [lia | ]);
+    match goal with
+    | |- (if ?c then _ else _) = _ =>
+        replace c with true
+          by (symmetry; repeat (apply andb_true_intro; split); apply Z.leb_le; lia)
+    end; f_equal; lia.
+Qed.
+
+Lemma num_digits2 n : 0 <= n <= 99 -> num_of (digits2 n) = Some n /\ plain (digits2 n).
+Proof.
+  intros H. unfold digits2, num_of.
+  assert (H1 : 0 <= n / 10 <= 9) by (Z.div_mod_to_equations; lia).
+  assert (H2 : 0 <= n mod 10 <= 9) by (Z.div_mod_to_equations; lia).
+  destruct (digit_facts _ H1) as (D1 & V1 & _). destruct (digit_facts _ H2) as (D2 & V2 & _).
+  split.
+  - cbn [num_acc]. rewrite D1, D2, V1, V2. f_equal. Z.div_mod_to_equations; lia.
+  - repeat constructor; assumption.
+Qed.
+
+Lemma num_digits4 n : 0 <= n <= 9999 -> num_of (digits4 n) = Some n /\ plain (digits4 n).
+Proof.
+  intros H. unfold digits4, num_of.
+  assert (H1 : 0 <= n / 1000 <= 9) by (Z.div_mod_to_equations; lia).
+  assert (H2 : 0 <= (n / 100) mod 10 <= 9) by (Z.div_mod_to_equations; lia).
+  assert (H3 : 0 <= (n / 10) mod 10 <= 9) by (Z.div_mod_to_equations; lia).
+  assert (H4 : 0 <= n mod 10 <= 9) by (Z.div_mod_to_equations; lia).
+  destruct (digit_facts _ H1) as (D1 & V1 & _). destruct (digit_facts _ H2) as (D2 & V2 & _).
+  destruct (digit_facts _ H3) as (D3 & V3 & _). destruct (digit_facts _ H4) as (D4 & V4 & _).
+  split.
+  - cbn [num_acc]. rewrite D1, D2, D3, D4, V1, V2, V3, V4. f_equal. Z.div_mod_to_equations; lia.
+  - repeat constructor; assumption.
+Qed.
+
+Definition no_seps (bs : bytes) : Prop := ~ In COMMA bs /\ ~ In LF bs.
+
+Lemma render_date_spec d :
+  0 <= year_of d <= 9999 ->
+  parse_date (render_date d) = Some d /\ no_seps (render_date d) /\ render_date d <> [].
+Proof.
+  intros Hy. unfold render_date.
+  pose proof (civil_spec d) as C. destruct (civil d) as [[y m] dd].
+  destruct C as (-> & Hm & Hdd & Hc).
+  destruct (num_digits4 _ Hy) as (N4 & P4).
+  destruct (num_digits2 m ltac:(lia)) as (N2 & P2).
+  destruct (num_digits2 dd ltac:(lia)) as (N2' & P2').
+  assert (Hplain : forall b, In b (digits4 (year_of d) ++ [DASH] ++ digits2 m ++ [DASH] ++ digits2 dd) ->
+                             is_digit b = true \/ b = DASH).
+  { intros b Hin. unfold plain in *. rewrite Forall_forall in P4, P2, P2'.
+    repeat (apply in_app_or in Hin; destruct Hin as [Hin | Hin]); auto.
+    - destruct Hin as [<- | []]. auto.
+    - destruct Hin as [<- | []]. auto. }
+  split; [ | split ].
+  - unfold digits4, digits2 in *. cbn [app].
+    unfold parse_date.
+    assert (H1 : 0 <= year_of d / 1000 <= 9) by (Z.div_mod_to_equations; lia).
+    destruct (digit_facts _ H1) as (_ & _ & _ & _ & _ & ND & NP).
+    replace (digit (year_of d / 1000) =? DASH)%N with false by (symmetry; apply N.eqb_neq; exact ND).
+    replace (digit (year_of d / 1000) =? PLUS)%N with false by (symmetry; apply N.eqb_neq; exact NP).
+    unfold parse_ymd. rewrite N.eqb_refl. cbn [andb].
+    rewrite N4, N2, N2'. rewrite Z.mul_1_l. exact Hc.
+  - split; intros Hin; apply Hplain in Hin; destruct Hin as [Hd | Hd];
+      try (apply is_digit_not_sep in Hd; tauto); discriminate.
+  - unfold digits4. discriminate.
+Qed.
+
+(* --------------------------------------------------------------- decimals *)
+Lemma pad_zeros_spec n bs :
+  plain bs -> plain (pad_zeros n bs) /\ length (pad_zeros n bs) = (n + length bs)%nat /\
+              num_of (pad_zeros n bs) = num_of bs.
+Proof.
+  intros P. induction n as [| k IH]; cbn [pad_zeros]; [auto | ].
+  destruct IH as (P' & L & V).
+  destruct (digit_facts 0 ltac:(lia)) as (D & Vd & _).
+  split; [constructor; assumption | ]. split; [cbn [length]; lia | ].
+  unfold num_of in *. cbn [num_acc]. rewrite D, Vd. exact V.
+Qed.
+
+Lemma plain_firstn n bs : plain bs -> plain (firstn n bs).
+Proof.
+  revert bs. induction n as [| k IH]; intros bs P; [constructor | ].
+  destruct bs as [| b t]; [constructor | ]. inversion P; subst. cbn [firstn]. constructor; auto.
+  apply IH. assumption.
+Qed.
+Lemma plain_skipn n bs : plain bs -> plain (skipn n bs).
+Proof.
+  revert bs. induction n as [| k IH]; intros bs P; [exact P | ].
+  destruct bs as [| b t]; [constructor | ]. inversion P; subst. cbn [skipn]. apply IH. assumption.
+Qed.
+
+Lemma plain_no_seps bs : plain bs -> no_seps bs /\ ~ In DOT bs.
+Proof.
+  intros P. repeat split; apply plain_no_sep; try exact P; reflexivity.
+Qed.
+
+Lemma parse_dec_digit_first b t : is_digit b = true -> parse_dec (b :: t) = parse_udec (b :: t).
+Proof.
+  intros H. apply is_digit_not_sep in H. destruct H as (_ & _ & _ & ND & NP).
+  unfold parse_dec.
+  replace (b =? DASH)%N with false by (symmetry; apply N.eqb_neq; exact ND).
+  replace (b =? PLUS)%N with false by (symmetry; apply N.eqb_neq; exact NP). reflexivity.
+Qed.
+
+Lemma render_dec_spec m s :
+  0 <= m <= max_mant -> (s <= 28)%nat ->
+  parse_dec (render_dec (m, s)) = Some (dec_value (m, s)) /\ no_seps (render_dec (m, s)).
+Proof.
+  intros Hm Hs. destruct (digits_of_spec m ltac:(lia)) as (P & NE & V).
+  unfold render_dec, dec_value. cbn [fst snd].
+  destruct s as [| s'].
+  - split; [ | apply plain_no_seps; exact P ].
+    destruct (digits_of m) as [| b t] eqn:Ed; [contradiction | ].
+    rewrite parse_dec_digit_first by (inversion P; assumption).
+    unfold parse_udec. rewrite split_first_no by (apply plain_no_seps; exact P).
+    rewrite V. cbn [num_of num_acc]. rewrite app_nil_r, V.
+    cbn [length Nat.add Nat.eqb Nat.ltb Nat.leb].
+    replace (m <=? max_mant) with true by (symmetry; apply Z.leb_le; lia). reflexivity.
+  - set (s := S s') in *.
+    destruct (pad_zeros_spec (S s - length (digits_of m)) (digits_of m) P) as (P' & L' & V').
+    set (ds' := pad_zeros (S s - length (digits_of m)) (digits_of m)) in *.
+    set (k := (length ds' - s)%nat).
+    assert (Hk : (1 <= k)%nat) by (unfold k; lia).
+    assert (Hfp : length (skipn k ds') = s) by (rewrite skipn_length; unfold k; lia).
+    assert (Hip : length (firstn k ds') = k) by (rewrite firstn_length; unfold k; lia).
+    pose proof (plain_firstn k ds' P') as Pi. pose proof (plain_skipn k ds' P') as Pf.
+    split.
+    + destruct (firstn k ds') as [| b t] eqn:Ei; [cbn in Hip; lia | ].
+      cbn [app]. rewrite parse_dec_digit_first by (inversion Pi; assumption).
+      change (b :: t ++ DOT :: skipn k ds') with ((b :: t) ++ DOT :: skipn k ds').
+      unfold parse_udec. rewrite split_first_app by (apply plain_no_seps; exact Pi).
+      destruct (num_acc_plain 0 _ Pi) as [vi Evi]. destruct (num_acc_plain 0 _ Pf) as [vf Evf].
+      unfold num_of. rewrite Evi, Evf.
+      replace (length (b :: t) + length (skipn k ds') =? 0)%nat with false
+        by (symmetry; apply Nat.eqb_neq; cbn [length]; lia).
+      rewrite Hfp.
+      replace (28 <? s)%nat with false by (symmetry; apply Nat.ltb_ge; lia).
+      rewrite <- Ei, firstn_skipn. fold (num_of ds'). rewrite V', V.
+      replace (m <=? max_mant) with true by (symmetry; apply Z.leb_le; lia). reflexivity.
+    + assert (Hall : forall b, In b (firstn k ds' ++ [DOT] ++ skipn k ds') -> is_digit b = true \/ b = DOT).
+      { intros b Hin. unfold plain in Pi, Pf. rewrite Forall_forall in Pi, Pf.
+        apply in_app_or in Hin. destruct Hin as [Hin | Hin]; [auto | ].
+        apply in_app_or in Hin. destruct Hin as [[<- | []] | Hin]; auto. }
+      split; intros Hin; apply Hall in Hin; destruct Hin as [Hd | Hd];
+        try (apply is_digit_not_sep in Hd; tauto); discriminate.
+Qed.
+
+(* ------------------------------------------------------------- whole file *)
+Definition wf_row (r : row_t) : Prop :=
+  0 <= year_of (fst r) <= 9999 /\ 0 <= fst (snd r) <= max_mant /\ (snd (snd r) <= 28)%nat.
+
+Definition body (r : row_t) : bytes := render_date (fst r) ++ COMMA :: render_dec (snd r).
+
+Lemma render_row_body r : render_row r = body r ++ [LF].
+Proof. unfold render_row, body. rewrite <- !app_assoc. reflexivity. Qed.
+
+Lemma body_spec r :
+  wf_row r ->
+  ~ In LF (body r) /\ body r <> [] /\
+  split_on COMMA (body r) = [render_date (fst r); render_dec (snd r)] /\
+  parse_date (render_date (fst r)) = Some (fst r) /\
+  parse_dec (render_dec (snd r)) = Some (dec_value (snd r)).
+Proof.
+  intros (Hy & Hm & Hs). destruct r as [d [m s]]. cbn [fst snd] in *.
+  destruct (render_date_spec d Hy) as (Pd & (NCd & NLd) & NEd).
+  destruct (render_dec_spec m s Hm Hs) as (Pv & (NCv & NLv)).
+  unfold body. cbn [fst snd]. repeat split; try assumption.
+  - intros Hin. apply in_app_or in Hin. destruct Hin as [Hin | [Hin | Hin]]; try tauto. discriminate.
+  - destruct (render_date d); [contradiction | discriminate].
+  - rewrite split_on_app by exact NCd. rewrite split_on_no by exact NCv. reflexivity.
+Qed.
+
+Lemma lines_of_rows rows :
+  Forall wf_row rows -> split_on LF (render_rows rows) = map body rows ++ [[]].
+Proof.
+  induction rows as [| r t IH]; intros H; [reflexivity | ].
+  inversion H as [| ? ? Hr Ht]; subst.
+  cbn [render_rows flat_map map app]. rewrite render_row_body, <- app_assoc. cbn [app].
+  rewrite split_on_app by (apply body_spec; exact Hr).
+  fold (render_rows t). rewrite IH by exact Ht. reflexivity.
+Qed.
+
+Lemma filter_bodies rows :
+  Forall wf_row rows -> filter nonempty (map body rows ++ [[]]) = map body rows.
+Proof.
+  induction rows as [| r t IH]; intros H; [reflexivity | ].
+  inversion H as [| ? ? Hr Ht]; subst. cbn [map app filter].
+  destruct (body_spec r Hr) as (_ & NE & _).
+  destruct (body r) as [| b bs] eqn:Eb; [contradiction | ]. cbn [nonempty].
+  rewrite IH by exact Ht. reflexivity.
+Qed.
+
+(* what the reader makes of a completely written file: the rows, as values *)
+Lemma parse_render_rows rows :
+  Forall wf_row rows -> parse_csv (render_rows rows) = map row_value rows.
+Proof.
+  intros H. unfold parse_csv. rewrite lines_of_rows, filter_bodies by exact H.
+  rewrite map_map.
+  assert (Hrec : forall n0, n0 = 2%nat ->
+            flat_map (parse_record n0) (map (fun r => split_on COMMA (body r)) rows) = map row_value rows).
+  { intros n0 ->. induction H as [| r t Hr Ht IH]; [reflexivity | ].
+    cbn [map flat_map]. rewrite IH.
+    destruct (body_spec r Hr) as (_ & _ & Sp & Pd & Pv). rewrite Sp.
+    unfold parse_record. cbn [length Nat.eqb]. rewrite Pd, Pv. reflexivity. }
+  destruct rows as [| r0 t]; [reflexivity | ].
+  cbn [map]. inversion H as [| ? ? Hr0 Ht]; subst.
+  destruct (body_spec r0 Hr0) as (_ & _ & Sp & _).
+  change (split_on COMMA (body r0) :: map (fun x => split_on COMMA (body x)) t)
+    with (map (fun x => split_on COMMA (body x)) (r0 :: t)).
+  apply Hrec. rewrite Sp. reflexivity.
+Qed.
+
+(* ------------------------------------------------------------------ safety *)
+(* [pubval x]: what a correct cache holds for day x (the published rate, or
+   the zero placeholder); rows agree with it *)
+Definition consistent (pubval : Z -> Qc) (rows : list row_t) : Prop :=
+  forall r, In r rows -> dec_value (snd r) = pubval (fst r).
+
+Lemma mget_In x v l : mget x l = Some v -> In (x, v) l.
+Proof.
+  induction l as [| [d r] t IH]; cbn [mget]; [discriminate | ].
+  destruct (mget x t) as [v' |].
+  - intros E. inversion E; subst. right. apply IH. reflexivity.
+  - destruct (Z.eqb_spec d x) as [-> | NE]; [ | discriminate ].
+    intros E. inversion E; subst. left. reflexivity.
+Qed.
+
+Lemma consistent_read pubval rows x v :
+  Forall wf_row rows -> consistent pubval rows ->
+  mget x (parse_csv (render_rows rows)) = Some v -> v = pubval x.
+Proof.
+  intros W C E. rewrite parse_render_rows in E by exact W.
+  apply mget_In in E. apply in_map_iff in E. destruct E as (r & Er & Hin).
+  unfold row_value in Er. inversion Er; subst. apply C. exact Hin.
+Qed.
+
+(* the procedure the code follows after the fix: whatever the crash point, a
+   later run reads only rates identical to the published ones *)
+Lemma rename_safe pubval old tmp0 new live tmp :
+  Forall wf_row new -> consistent pubval new ->
+  match old with Some rs => Forall wf_row rs /\ consistent pubval rs | None => True end ->
+  post_crash (rename_proc new) (fs_of old tmp0) live tmp ->
+  forall b x v, live = Some b -> mget x (parse_csv b) = Some v -> v = pubval x.
+Proof.
+  intros Wn Cn Ho Hc b x v El E.
+  destruct (rename_atomic old tmp0 new live tmp Hc) as [H | H]; rewrite H in El.
+  - destruct old as [rs |]; cbn [option_map] in El; [ | discriminate ].
+    inversion El; subst b. destruct Ho as [Wo Co]. eapply consistent_read; eauto.
+  - inversion El; subst b. eapply consistent_read; eauto.
+Qed.
+
+(* ---- the procedure before the fix: a cut inside the digits of a rate ---- *)
+(* new content "2022-01-05,1.2345\n"; the crash leaves "2022-01-05,1.2" *)
+Definition ex_new : list row_t := [(18997, (12345, 4%nat))].
+Definition ex_pubval : Z -> Qc := fun _ => Qcfrac 12345 10000.
+
+Lemma inplace_unsafe :
+  Forall wf_row ex_new /\ consistent ex_pubval ex_new /\
+  exists live tmp,
+    post_crash (inplace_proc ex_new) (fs_of (Some ex_new) None) (Some live) tmp /\
+    live = map Z.to_N [50; 48; 50; 50; 45; 48; 49; 45; 48; 53; 44; 49; 46; 50] /\
+    mget 18997 (parse_csv live) = Some (Qcfrac 12 10) /\
+    Qcfrac 12 10 <> ex_pubval 18997.
+Proof.
+  split; [ | split ].
+  - repeat constructor; vm_compute; intros; discriminate.
+  - intros r [<- | []]. vm_compute. reflexivity.
+  - eexists. exists None. split; [ | split; [reflexivity | split] ].
+    + exists 2%nat. cbv zeta. split.
+      * vm_compute. exists 14%nat. reflexivity.
+      * vm_compute. exact I.
+    + vm_compute. reflexivity.
+    + vm_compute. intros H. discriminate H.
+Qed.
+
+(* the same crash point is harmless for the fixed procedure *)
+Lemma rename_example :
+  exists live tmp,
+    post_crash (rename_proc ex_new) (fs_of (Some ex_new) None) (Some live) (Some tmp) /\
+    live = render_rows ex_new /\
+    tmp = map Z.to_N [50; 48; 50; 50; 45; 48; 49; 45; 48; 53; 44; 49; 46; 50] /\
+    mget 18997 (parse_csv live) = Some (ex_pubval 18997).
+Proof.
+  eexists. eexists. split; [ | split; [reflexivity | split; [reflexivity | ] ] ].
+  - exists 2%nat. cbv zeta. split.
+    + vm_compute. exists 0%nat. reflexivity.
+    + vm_compute. exists 14%nat. reflexivity.
+  - vm_compute. reflexivity.
+Qed.
